@@ -113,7 +113,8 @@ def run_case(case):
             # same names, other bodies, same targets, same process, right before the judged call
             pipeline.run_sibling(desc, simulate=True, targets=tg, counters=cnt)
         try:
-            df = simcheck.simulate_once(fsim, params, init, vf, seed=7, targets=tg if tg else None, st_obj=st_obj)
+            # an empty list of requested targets is a request like any other (no extra columns)
+            df = simcheck.simulate_once(fsim, params, init, vf, seed=7, targets=tg if (tg or case["index"] % 2) else None, st_obj=st_obj)
         except Exception as e:  # noqa: BLE001
             res["violations"].append({"key": pipeline.exc_key(e, "simulate_targets"), "what": pipeline.exc_text(e) + f" targets={tg}"})
             continue
